@@ -29,6 +29,8 @@ var packnamesSets = [][]string{
 	{".git/HEAD", ".git/objects/ab/cdef", ".gitignore", ".svn/entries", "lost+found/x"},
 	{"4fE/XBU/4fEXBUGMgz", ".tmp.upload.4fEXBUGMgz", "tar/fileset/4fE/XBU/4fEXBUGMgz/f"},
 	{"#recycle/x", ".nfs000000000001", "core", ".#lock", "a~", "Thumbs.db", ".DS_Store", "._x"},
+	// a backslash is an ordinary byte of a name (no separator): `d\\c` is one file in the root, not `c` in `d`
+	{"d\\c", "d/c", "back\\slash/x", "\\", "a\\", "C:\\Users\\x"},
 }
 
 func packnamesEngine(c *Ctx) {
@@ -120,6 +122,16 @@ func packnamesExec(c *Ctx, op string) {
 	} {
 		if g := pk(full, tg); g != got {
 			c.PropFail("pack-env", fmt.Sprintf("the fileset with entries %q packs to %s when %s and to %s when not saved", names, g, how, got), op)
+		}
+	}
+	// what was stored scans to the id the pack answered (the reading side sees the same names the writing side saw)
+	for _, tk := range []string{"ca"} {
+		stored := storedWarePath(tk, wh, api.WareID{Type: api.PackType(fmtName), Hash: strings.TrimPrefix(got, "ok ")})
+		sid, serr, span := safeCall(func() (api.WareID, error) {
+			return fn.scan(ctx, api.PackType(fmtName), api.MustParseFilesetUnpackFilter(losslessUnpackStr), rio.Placement_None, api.WarehouseLocation("file://"+stored), rio.Monitor{})
+		})
+		if r := resTok(sid, serr, span); r != got {
+			c.PropFail("collision", fmt.Sprintf("the fileset with entries %q packs to %s; a scan of the ware that pack wrote answers %s (the reader takes the names for another tree)", names, got, r), op)
 		}
 	}
 	// one entry fewer / other bytes in one entry: another fileset, another id
